@@ -57,7 +57,8 @@ def checkC09 (toks : List String) (res : String) : Option Verdict :=
     let h : Int := (2 : Int)^((ed - es).toNat - 1)
     let biased : Int := if mode == .nrst && v < 0 then v - h else v + h
     let cls :=
-      if (mode == .nrst || mode == .tpi) && ed > es && (ed - es).toNat ≥ S.digits then "C09.scaled_half_unit_exceeds_source_rep"
+      if mode == .nrst && ed > es && es > 0 && !(promote S).inRange (v * 2^es.toNat) then "C09.scaled_nearest_sign_test_overflows"
+      else if (mode == .nrst || mode == .tpi) && ed > es && (ed - es).toNat ≥ S.digits then "C09.scaled_half_unit_exceeds_source_rep"
       else if (mode == .nrst || mode == .tpi) && ed > es && !T.inRange biased then "C09.scaled_bias_overflow_near_limits" else ""
     some { model := showRes (fun r => s!"sc({r.1.toString},{ed},2):{r.2}") m, spec := spec, cls := cls,
            branch := s!"s2s/{toks[1]!}" ++ (if ed > es then "/narrow" else "/exact"), nontrivial := spec.isSome }
